@@ -19,8 +19,8 @@ ASSUMPTIONS = ['shaping rules are those of docs/tree_construction.md, docs/gramm
                'x*, x+ and ~ with upper bound >= 50 directly inside [..] are not generated (placeholder count unspecified)',
                'inputs whose derivation set exceeds 2000 shaped trees or is infinite (cyclic) are skipped and counted']
 
-OPTS = gramgen.Opts(terms='tok', max_rules=4, shaping=True, templates=True, ignore=True)
-OPTS_NN = gramgen.Opts(terms='tok', max_rules=4, shaping=True, templates=True, ignore=True, nonnull=True, acyclic=True)
+OPTS = gramgen.Opts(terms='tok', max_rules=4, shaping=True, templates=True, ignore=True, lit_tmpl_args=True)
+OPTS_NN = gramgen.Opts(terms='tok', max_rules=4, shaping=True, templates=True, ignore=True, nonnull=True, acyclic=True, lit_tmpl_args=True)
 OPTS_UNIT = gramgen.Opts(terms='tok', max_rules=6, shaping=True, ignore=False, nonnull=True, acyclic=True, unit_bias=True, max_alts=2, max_items=2, depth=1)
 ENGINES = [('earley', 'basic'), ('earley', 'dynamic'), ('earley', 'dynamic_complete'), ('lalr', 'basic'), ('lalr', 'contextual'), ('cyk', 'basic')]
 _pool = None
